@@ -42,7 +42,11 @@ func runSource(sc Scenario, tr *Trace, seed int64) {
 				req.Host = str(st, "host")
 				ev["want"] = str(st, "host")
 			case "header":
-				req.Header.Set(str(st, "name"), str(st, "value"))
+				if !boolOr(st, "absent", false) {
+					req.Header.Set(str(st, "name"), str(st, "value"))
+				} else {
+					req.Header.Del(str(st, "name"))
+				}
 				ev["want"] = str(st, "value")
 			}
 			var token string
